@@ -91,6 +91,10 @@ def h09a(c, max_frags=1):
             pkg = fl.handler_queue.pop()
         # order B on another runner
         own_af = c.pick("own_adjustment_factor", [5.0, 20.0, 37.5])
+        # the market definition may carry no adjustment factor for a runner (late entry): its bets still stand and every
+        # order after it in the blotter still gets the reduction
+        own_missing = c.choose("own_adjustment_factor_missing", [False, True]) if b_kind.startswith("MOC-LAY") and mtype == "WIN" else False
+        c.tag("own_factor_missing", own_missing)
         if b_kind == "LIMIT":
             B, db = ss.resting_limit(c, "b", fl, market, strategy, 101, selection_id=2, max_frags=max_frags + 1, allow_cancelled=False,
                                      persistence="LAPSE", status=OrderStatus.EXECUTABLE, price=3.0)
@@ -111,10 +115,17 @@ def h09a(c, max_frags=1):
                 B.simulated.matched = [[cm.T0_MS, sp, 1.0]]
                 B.simulated.size_matched, B.simulated.average_price_matched = 1.0, sp
                 B.simulated._bsp_reconciled = True
+        C = None
+        if own_missing:
+            C = cm.mk_limit(strategy, "BACK", 10.0, 2.0, selection_id=3)
+            cm.place_resting(fl, market, strategy, C, 102, status=OrderStatus.EXECUTABLE)
+            C.simulated.matched = [[cm.T0_MS, 10.0, 2.0]]
+            C.simulated.size_matched, C.simulated.average_price_matched = 2.0, 10.0
+            c_before = [list(x) for x in C.simulated.matched]
         f, fk = _af(c, "adjustment_factor")
         c.tag("factor", fk)
         bk2 = _removal_book(cm.MID, 8, cm.T0_MS + 1000, {1: f}, md)
-        bk2.runners[1].adjustment_factor = own_af
+        bk2.runners[1].adjustment_factor = None if own_missing else own_af
         with c.guard("removal-update"):
             market(bk2)
             mw(market)
@@ -150,6 +161,9 @@ def h09a(c, max_frags=1):
                 c.cover("moc-back-matched")
             elif b_kind == "MOC-BACK":
                 c.ob("%s.moc-back-liability-unchanged" % tag, B.order_type.liability == liab)
+            elif own_missing:
+                _frag_obligations(c, tag + ".order-after-the-factorless-runner", c_before, C.simulated.matched, f, applies)
+                c.cover("own-factor-missing")
             else:
                 ff = 0 if f is None else f
                 if mtype == "WIN":
@@ -279,7 +293,7 @@ def h09b(c):
 
 HARNESSES = [
     Harness("H09a", h09a, quick=dict(max_frags=1), thorough=dict(max_frags=2), pattern="P2 inductive step + second call",
-            requires=["voided", "fragments", "moc-lay", "moc-back-matched"], wall_s=(300, 3000), max_paths=(200000, 3000000),
+            requires=["voided", "fragments", "moc-lay", "moc-back-matched", "own-factor-missing"], wall_s=(300, 3000), max_paths=(200000, 3000000),
             outside=["more than 2 fragments per order", "SP lay bets with a maximum odds limit (LIMIT_ON_CLOSE) on other runners: flumine documents this as TODO"]),
     Harness("H09b", h09b, pattern="P3 short history", requires=["second-market", "compose", "other-market-closed", "removal-before-first-order"], wall_s=(300, 3000), max_paths=(200000, 3000000),
             outside=["more than 2 markets / 2 removals"]),
